@@ -154,7 +154,7 @@ func main() {
 			cmd.Env = append(os.Environ(),
 				"VERIF_ID="+id, "VERIF_TIER="+tier, "VERIF_SEED="+strconv.FormatUint(seed, 10),
 				"VERIF_SHARD="+strconv.Itoa(i), "VERIF_NSHARDS="+strconv.Itoa(shards),
-				"VERIF_SCRATCH="+scratch, "VERIF_BIN="+bin, "VERIF_ROOT="+root, "VERIF_REPLAY="+replay,
+				"VERIF_SCRATCH="+scratch, "VERIF_BIN="+bin, "VERIF_ROOT="+root, "VERIF_REPLAY="+replay, "VERIF_REPO="+repo,
 				"VERIF_SOFT_DEADLINE="+(deadline*8/10).String(),
 				"GOMAXPROCS=2")
 			var buf bytes.Buffer
